@@ -48,7 +48,7 @@ type httpReq struct {
 }
 
 type httpConn struct {
-	Svc       int       `json:"svc"` // 0: director host with port, 1: director host without port
+	Svc       int       `json:"svc"` // 0: director host with port; 1, 2: two services / ports sharing one director whose host has no port
 	Pipelined bool      `json:"pipelined"`
 	Cut       int       `json:"cut"` // offset into the client's byte stream where the write is split (<=0: none)
 	Reqs      []httpReq `json:"reqs"`
@@ -234,10 +234,21 @@ type gotResp struct {
 }
 
 func (e *labEnv) httpTarget(svc int) (string, *httpBackend) {
-	if svc == 1 {
+	switch svc {
+	case 1:
 		return e.addr(e.http2Port), e.http2B
+	case 2:
+		return e.addr(e.http3Port), e.http3B
 	}
 	return e.addr(e.httpPort), e.httpB
+}
+
+func (e *labEnv) httpBackends() []*httpBackend { return []*httpBackend{e.httpB, e.http2B, e.http3B} }
+
+func (e *labEnv) resetHTTP() {
+	for _, b := range e.httpBackends() {
+		b.reset()
+	}
 }
 
 func writeCut(c net.Conn, data []byte, cut int) error {
@@ -343,8 +354,7 @@ func checkHTTPOnce(t testing.TB, c httpCase) error {
 	e := getEnv(t)
 	epoch := nextEpoch()
 	d0 := e.decoy.count()
-	e.httpB.reset()
-	e.http2B.reset()
+	e.resetHTTP()
 	mark := e.cap.Len()
 	for ci, hc := range c.Conns {
 		_, be := e.httpTarget(hc.Svc)
@@ -362,10 +372,7 @@ func checkHTTPOnce(t testing.TB, c httpCase) error {
 		}(ci)
 	}
 	wg.Wait()
-	defer func() {
-		e.httpB.reset()
-		e.http2B.reset()
-	}()
+	defer e.resetHTTP()
 	for _, r := range results {
 		if isInfra(r.err) {
 			return r.err
@@ -373,6 +380,13 @@ func checkHTTPOnce(t testing.TB, c httpCase) error {
 	}
 	if e.decoy.count() != d0 {
 		return fmt.Errorf("the decoy address %s (named only in the clients' Host headers) was contacted: %s", e.decoy.host(), e.decoy.last())
+	}
+	// nothing may arrive at a backend other than the one configured for the port the
+	// client connected to (scripts are installed at that backend only)
+	for _, b := range e.httpBackends() {
+		if _, _, stray, _ := b.snapshot(); len(stray) > 0 {
+			return fmt.Errorf("backend %s received something no client sent to the proxy port it is configured for: %s", b.l.Addr(), stray[0])
+		}
 	}
 	var firstTimeout error
 	for ci, hc := range c.Conns {
@@ -632,7 +646,7 @@ func genHTTPReq(t *rapid.T) httpReq {
 }
 
 func genHTTPConn(t *rapid.T) httpConn {
-	hc := httpConn{Svc: rapid.IntRange(0, 1).Draw(t, "svc"), Pipelined: rapid.Bool().Draw(t, "pipelined")}
+	hc := httpConn{Svc: rapid.IntRange(0, 2).Draw(t, "svc"), Pipelined: rapid.Bool().Draw(t, "pipelined")}
 	n := rapid.IntRange(1, 4).Draw(t, "nreq")
 	total := 0
 	var lens []int
@@ -705,7 +719,7 @@ func (c httpCase) label() string {
 	return fmt.Sprintf("http/%s/clients=%d", mode, len(c.Conns))
 }
 
-const httpRule = "HTTP: 1..3 concurrent client connections to two http-proxy services (director host with port / without port), each 1..4 requests (11 methods, origin-form targets with pct-encoding and queries, 0..10 headers with repeated and differently-cased names, Host naming the decoy, bodies 0..64 KiB as Content-Length or chunked, body content random / text / HTTP look-alike), lock-step or pipelined, one cut of the client stream (none, in the first head, around a request boundary, anywhere); backend replies (15 status codes, 0..6 headers, bodies 0..64 KiB as Content-Length or chunked) written in 1..5 pieces; oracle: backend's parsed view == sent, client's parsed view == backend's script, events attributed to the client's address, decoy untouched; non-trivial = a request with a body or >=2 requests on one connection"
+const httpRule = "HTTP: 1..3 concurrent client connections, each drawn onto one of three http-proxy ports (own director whose host has a port / two services on two ports sharing ONE director whose host has no port, backends at 127.0.0.2:<same port>, so successive connections alternate between the shared director's ports in drawn order), each 1..4 requests (11 methods, origin-form targets with pct-encoding and queries, 0..10 headers with repeated and differently-cased names, Host naming the decoy, bodies 0..64 KiB as Content-Length or chunked, body content random / text / HTTP look-alike), lock-step or pipelined, one cut of the client stream (none, in the first head, around a request boundary, anywhere); backend replies (15 status codes, 0..6 headers, bodies 0..64 KiB as Content-Length or chunked) written in 1..5 pieces; oracle: backend's parsed view == sent, client's parsed view == backend's script, events attributed to the client's address, decoy untouched; non-trivial = a request with a body or >=2 requests on one connection"
 
 func TestHTTP(t *testing.T) {
 	r := vlib.Open(prop)
@@ -736,7 +750,7 @@ func TestHTTP(t *testing.T) {
 			if hc.Cut > 0 {
 				r.Label("http/conn/cut", 1)
 			}
-			r.Label(fmt.Sprintf("http/conn/director-port=%v", hc.Svc == 0), 1)
+			r.Label(fmt.Sprintf("http/conn/director=%s", []string{"host-with-port", "shared-portless/port-a", "shared-portless/port-b"}[hc.Svc%3]), 1)
 			for _, q := range hc.Reqs {
 				r.Label("http/req/framing="+q.Framing, 1)
 				r.Label("http/reply/framing="+q.Resp.Framing, 1)
@@ -811,7 +825,7 @@ func TestHTTPCuts(t *testing.T) {
 			hc := base
 			hc.Cut = cut
 			hc.Pipelined = pip
-			hc.Svc = cut % 2
+			hc.Svc = cut % 3
 			c := httpCase{Conns: []httpConn{hc}}
 			n++
 			if err := checkHTTP(t, c); err != nil {
